@@ -11,7 +11,7 @@
 int c_aggregate(int nval, int operator, int maxnan, int * aggindex,
     double * inputs, double * outputs, int * iend)
 {
-    int i, nagg, nagg_nan, count, ia, iaprev;
+    int i, nagg, nagg_nan, count, ia, iaprev, isvalid;
     double agg, inp, nan;
     static double zero = 0.0;
 
@@ -60,6 +60,7 @@ int c_aggregate(int nval, int operator, int maxnan, int * aggindex,
         /* check input and skip value if nan */
         inp = inputs[i];
 
+        isvalid = !isnan(inp);
         if(isnan(inp))
         {
             nagg_nan ++;
@@ -71,7 +72,10 @@ int c_aggregate(int nval, int operator, int maxnan, int * aggindex,
             agg += inp;
         }
         else if (operator == 2){
-            agg = inp > agg ? inp : agg;
+            /* max of the non-missing values of the group:
+             * starts from the first of them, not from 0 */
+            if(isvalid)
+                agg = (nagg == 1 || inp > agg) ? inp : agg;
         }
         else if (operator == 3){
             agg = inp;
